@@ -516,7 +516,7 @@ func (c10Prop) Execute(p *Plan, run *Run) any {
 	var rbuf *avro.ReadBuf
 	var rbufData []byte
 	rbufHeld := &c10Held{id: -1, task: 99} // allocations made on the current direct ReadBuf
-	vr := NewRng(pl.VSeed, 0x10a)           // value content only; derived from the plan
+	vr := NewRng(pl.VSeed, 0x10a)          // value content only; derived from the plan
 	violated := false
 	fail := func(opi int, class, site, msg string) {
 		q := p.clone()
